@@ -276,6 +276,54 @@ def wl_point_reads(ctx, rng, case):
     case.nontrivial = True
 
 
+def wl_huge(ctx, rng, case):
+    """arrays of half a million to a few million bits (64 KiB .. 512 KiB of backing bytes: beyond any block a whole-array accessor might
+    work in), sparsely set - first and last bit, both sides of every multiple of 65536 bytes, random positions - and compared through the
+    whole-array accessors (as_string against the model's string, num_bits_set) and point reads of every touched position and its neighbours"""
+    from probables.utilities import Bitarray
+
+    n = [524287, 524288, 524289, 600003, 1048576 + 7, 2 * 524288, 2**21 + 5, 3 * 524288 - 1][case.index % 8]
+    ba = Bitarray(n)
+    model = bytearray(n)
+    case.desc = {"size": n, "kind": "huge sparse array"}
+    ctx.observe("sizes", n)
+    edges = [p for b in range(0, n + 524288, 524288) for p in (b - 9, b - 8, b - 1, b, b + 1, b + 7, b + 8) if 0 <= p < n]
+    touched = set()
+
+    def audit(where):
+        s = ba.as_string()
+        want = bytes(48 + b for b in model).decode()
+        ctx.counters["oracle_evaluations"] += n
+        if s != want:
+            first = next((i for i in range(min(len(s), n)) if s[i] != want[i]), None)
+            ctx.fail(f"as_string differs from the model {where} (size {n})", first_difference=first, length=len(s), ones=s.count("1"), want_ones=want.count("1"))
+        ctx.check(ba.num_bits_set() == sum(model), f"num_bits_set differs {where} (size {n})", got=ba.num_bits_set(), want=sum(model))
+        for p in sorted(touched):
+            for q in (p - 1, p, p + 1):
+                if 0 <= q < n and not (ba.check_bit(q) == model[q] == ba[q] and ba.is_bit_set(q) == bool(model[q])):
+                    ctx.fail(f"read of bit {q} differs from the model {where} (size {n})", want=model[q])
+        ctx.count("full_state_comparisons")
+
+    audit("after construction")
+    for rnd in range(3):
+        for p in rng.sample(edges, min(len(edges), 8)) + [0, n - 1] + [rng.randrange(n) for _ in range(8)]:
+            v = 1 if rng.random() < 0.75 else 0
+            if rng.random() < 0.5:
+                ba[p] = v
+            elif v:
+                ba.set_bit(p)
+            else:
+                ba.clear_bit(p)
+            model[p] = v
+            touched.add(p)
+        audit(f"after round {rnd} of sparse writes")
+    ba.clear()
+    model = bytearray(n)
+    audit("after clear")
+    ctx.count("huge_arrays")
+    case.nontrivial = True
+
+
 def wl_many_clears(ctx, rng, case):
     """LONG lives: an array that is written once and then cleared hundreds or tens of thousands of times (a scratch bitmap cleared per
     request) must stay all zero - checked around every power-of-two number of clears - and must still take writes afterwards"""
@@ -318,9 +366,10 @@ PROP = Prop(
         Workload("many_clears", wl_many_clears, quick=6, thorough=24),
         Workload("fill_all", wl_fill_all, quick=6, thorough=60),
         Workload("point_reads", wl_point_reads, quick=60, thorough=6000),
+        Workload("huge", wl_huge, quick=8, thorough=64),
     ],
     assumptions=["values passed to []= are ints/bools, as the signature says",
                  "any of IndexError/ValueError/TypeError counts as 'rejected with an error'"],
-    required=["full_state_comparisons", "rejections_expected", "point_read_histories_beyond_2056_bits"],
+    required=["full_state_comparisons", "rejections_expected", "point_read_histories_beyond_2056_bits", "huge_arrays"],
     shards={"quick": 4, "thorough": 16},
 )
